@@ -90,7 +90,7 @@ func respell(v any, mask int, top bool) any {
 func init() {
 	// ------------------------------------------------------------------ C12
 	register("C12", func(c *engine.Ctx) {
-		c.Rule = "random schemas (all features, titles, numeric-looking keys) x random option sets; each generated: three times in one process, from files whose objects have their keys in three different random orders, from a relocated directory, and (a sample) by the CLI binary in separate processes; all outputs must be byte-identical under the same names. Mapping order: sets of 1..4 schema mappings whose ids are pairwise distinct but nearly equal to the schema's $id (trailing # or /, letter case, trailing space, prefix) in EVERY slice order (main.go takes the order from a map): identical outputs, equal to the model's route / rootOverride. Distinct = distinct (option set, schema shape)."
+		c.Rule = "random schemas (all features, titles, numeric-looking keys) x random option sets; each generated: three times in one process, from files whose objects have their keys in three different random orders, from a relocated directory, and (a sample) by the CLI binary in separate processes; all outputs must be byte-identical under the same names. Colliding names: sets of definition / property names that normalise to one identifier, with different content, generated 30 times in one process with shuffled key orders. Mapping order: sets of 1..4 schema mappings whose ids are pairwise distinct but nearly equal to the schema's $id (trailing # or /, letter case, trailing space, prefix) in EVERY slice order (main.go takes the order from a map): identical outputs, equal to the model's route / rootOverride. Distinct = distinct (option set, schema shape)."
 		c.Proofs([]string{"GJS.Props.C12"}, []string{
 			"GJS.Props.C12.sortedKeys_perm", "GJS.Props.C12.alookup_perm", "GJS.Props.C12.visited_perm", "GJS.Props.C12.parseTypeList_order_free",
 			"GJS.Props.C12.route_perm", "GJS.Props.C12.rootOverride_perm", "GJS.Props.C12.route_exact",
@@ -165,13 +165,56 @@ func init() {
 			}
 		}
 		c.Programs += n
+		// names that collide after normalisation, with different content: which one gets the bare name and which the
+		// suffix must not depend on map iteration order — 30 generations each in this process (a fresh iteration order
+		// every time)
+		collSets := [][]string{{"unit-km", "unit_km"}, {"fooBar", "FooBar"}, {"a b", "a-b", "a_b"}, {"x1", "X1", "x_1"}, {"license", "license+"}}
+		for ci, set := range collSets {
+			for _, where := range []string{"definitions", "properties"} {
+				holder := sgen.M{}
+				props := sgen.M{}
+				for k, nm := range set {
+					node := sgen.M{"type": "object", "properties": sgen.M{fmt.Sprintf("f%d", k): sgen.M{"type": "integer"}}, "required": []any{fmt.Sprintf("f%d", k)}}
+					holder[nm] = node
+					if where == "definitions" {
+						props[fmt.Sprintf("p%d", k)] = sgen.M{"$ref": "#/$defs/" + nm}
+					}
+				}
+				root := sgen.M{"$id": "urn:c12", "type": "object"}
+				if where == "definitions" {
+					root["$defs"], root["properties"] = holder, props
+				} else {
+					root["properties"] = holder
+				}
+				content := core.MustJSON(root)
+				cfg := core.DefaultCfg()
+				cfg.Tags = []string{"json"}
+				dir := filepath.Join(tmp, fmt.Sprintf("coll%d-%s", ci, where))
+				ref := genSrc(dir, "schema.json", content, cfg, "urn:c12")
+				for rep := 0; rep < 30; rep++ {
+					var buf bytes.Buffer
+					shuffledJSON(c.R, root, &buf)
+					got := genSrc(filepath.Join(dir, fmt.Sprint(rep)), "schema.json", buf.Bytes(), cfg, "urn:c12")
+					c.Eval(fmt.Sprintf("collision-order|%d|%s|%v", ci, where, got == ref))
+					if got != ref {
+						fails++
+						if fails <= 3 {
+							c.Fail("oracle", fmt.Sprintf("colliding names %v (%s): repetition %d of the same generation gives other bytes", set, where, rep),
+								M{"kind": "relational", "variant": "repeat", "cfg": cfg, "schema": string(content), "reference_output": clip(ref, 1500), "variant_output": clip(got, 1500)}, false)
+						}
+						break
+					}
+				}
+			}
+		}
+		c.Programs += 2 * len(collSets)
 		mappingOrderStream(c, &fails)
 		c.FactsVerdict(fails > 0)
 	})
 
 	// ------------------------------------------------------------------ C13
 	register("C13", func(c *engine.Ctx) {
-		c.Rule = "random schemas (all features incl. $defs/$ref, titles, numeric- and boolean-looking property names) x every combination of the re-spellings {$id->id, $defs->definitions, #/$defs/->#/definitions/ (and upper-case prefix), type string -> one-element list} x {JSON, block YAML, flow YAML with non-string mapping keys}; plus true vs {} as the anything-schema for additionalProperties / items; the root type name is fixed by --schema-root-type so that the file extension does not enter. All outputs must be byte-identical to the canonical JSON spelling's. Distinct = distinct (re-spelling mask, format, schema shape)."
+		c.Rule = "random schemas (all features incl. $defs/$ref, titles, numeric- and boolean-looking property names) x every combination of the re-spellings {$id->id, $defs->definitions, #/$defs/->#/definitions/ (and upper-case prefix), type string -> one-element list} x {JSON, block YAML, flow YAML with non-string mapping keys, JSON with every non-ASCII character escaped, the JSON bytes (plain and escaped) under a .yaml name, YAML with every scalar double-quoted}; descriptions, enum members and defaults with text that needs escaping (non-ASCII, apostrophe, quotes, backslash, DEL, U+1F600); plus true vs {} as the anything-schema for additionalProperties / items; the root type name is fixed by --schema-root-type so that the file extension does not enter. All outputs must be byte-identical to the canonical JSON spelling's. Distinct = distinct (re-spelling mask, format, schema shape)."
 		c.Proofs([]string{"GJS.Props.C13", "GJS.Props.C10"}, []string{
 			"GJS.Props.C13.type_string_or_list", "GJS.Props.C13.true_is_empty_schema", "GJS.Props.C13.id_fallback", "GJS.Props.C13.defs_fallback",
 			"GJS.Props.C10.extractRef_prefix_equiv",
@@ -184,6 +227,14 @@ func init() {
 			g := sgen.New(c.R, relOpts())
 			root := g.Root("urn:c13")
 			props := root["properties"].(sgen.M)
+			if c.R.P(0.5) {
+				// text that needs escaping in one spelling or another: non-ASCII, apostrophe, quotes, backslash, |, DEL,
+				// a supplementary-plane character
+				texts := []string{"München", "Zürich", "customer's", "A|B", "tab\there", "quote\"q", "back\\slash", "日本", "smile 😀", "del\u007f", "plain"}
+				root["description"] = core.Pick(c.R, texts) + " / " + core.Pick(c.R, texts)
+				props["city"] = sgen.M{"type": "string", "enum": toAnyS(core.Sample(c.R, texts, 3)), "description": core.Pick(c.R, texts)}
+				props["note"] = sgen.M{"type": "string", "default": core.Pick(c.R, texts)}
+			}
 			if c.R.P(0.4) {
 				props[core.Pick(c.R, []string{"1", "true", "2.5", "007", "no"})] = sgen.M{"type": "string"}
 			}
@@ -209,7 +260,7 @@ func init() {
 				if mask&4 != 0 && c.R.P(0.3) {
 					sp = upperRefPrefix(sp)
 				}
-				for _, form := range []string{"json", "yaml-block", "yaml-flow"} {
+				for _, form := range []string{"json", "yaml-block", "yaml-flow", "json-escaped", "json-as-yaml", "json-escaped-as-yaml", "yaml-double-quoted"} {
 					var content []byte
 					file := "schema.json"
 					switch form {
@@ -221,6 +272,18 @@ func init() {
 					case "yaml-flow":
 						content = toYAML(sp, true)
 						file = "schema.yml"
+					case "json-escaped":
+						// every non-ASCII character and the apostrophe as \uXXXX escapes: the same JSON document
+						content = asciiEscapeJSON(core.MustJSON(sp))
+					case "json-as-yaml":
+						content = core.MustJSON(sp) // JSON is YAML
+						file = "schema.yaml"
+					case "json-escaped-as-yaml":
+						content = asciiEscapeJSON(core.MustJSON(sp))
+						file = "schema.yaml"
+					case "yaml-double-quoted":
+						content = toYAMLQuoted(sp)
+						file = "schema.yaml"
 					}
 					out := genSrc(filepath.Join(tmp, fmt.Sprint(i), fmt.Sprintf("m%d-%s", mask, form)), file, content, cfg, "urn:c13")
 					c.Eval(fmt.Sprintf("%d|%s|%s", mask, form, classOfDoc(string(core.MustJSON(root)))))
